@@ -1,18 +1,25 @@
-(* Correspondence judge for C20 (to_nsq): one case = one run of the real to_nsq
-   binary against [ndest] recording destinations. No proofs here. *)
-From Coq Require Import List NArith Bool.
-From NSQV Require Import model.Judge model.Relay.
+(* Correspondence judge for C20.
+     ToNsq : one run of the real to_nsq binary against [ndest] recording destinations;
+     Ack   : one run of the real nsq_to_nsq / nsq_to_http binary against a real source nsqd
+             and scripted stub destinations: the global request log (destination, body,
+             answer given), which source bodies the channel no longer owes at the end, and
+             the channel's requeue / timeout counters.
+   No proofs here. *)
+From Coq Require Import List NArith Bool Arith.
+From NSQV Require Import model.Judge model.Relay model.RelayAck.
 Import ListNotations.
+Open Scope bool_scope.
 Open Scope N_scope.
 
-Record case := mk {
+(* ---------------- to_nsq ---------------- *)
+Record to_nsq_case := mk {
   delim : N;
   ndest : nat;
   input : bytes;
   got : list (list bytes)        (* per destination: bodies published, in order *)
 }.
 
-Definition judge (c : case) : N :=
+Definition judge_to_nsq (c : to_nsq_case) : N :=
   let model_ok :=
     match published_per_dest (ndest c) (delim c) (input c) with
     | Some m => list_eqb bytess_eqb m (got c)
@@ -21,3 +28,121 @@ Definition judge (c : case) : N :=
   (* the property itself, on the implementation's own output *)
   let monitor := list_eqb bytess_eqb (got c) (repeat (split_nonempty (delim c) (input c)) (ndest c)) in
   verdict model_ok monitor.
+
+(* ---------------- nsq_to_nsq / nsq_to_http ---------------- *)
+Record ack_case := mkAck {
+  a_tool : tool;
+  a_mode : rmode;
+  a_ndest : nat;
+  a_filter : bool;                          (* --require-json-field is set *)
+  a_sampling : bool;                        (* --sample < 1 *)
+  a_src : list (bytes * bool);              (* source bodies (distinct), "passes the filter" *)
+  a_log : list (nat * bytes * answer);      (* all requests, in arrival order *)
+  a_finished : list bytes;                  (* source bodies no longer owed at the end *)
+  a_quiescent : bool;                       (* the channel drained while the tool was running *)
+  a_requeues : N;
+  a_timeouts : N;
+  a_max_attempts : nat;                     (* the consumer's max_attempts in this run (go-nsq default 5) *)
+  a_givenup : list bytes                    (* bodies the tool's client library logged as "giving up" *)
+}.
+
+(* the acceptance rule of the property text, restated independently of the model:
+   publish OK for nsqd, HTTP 2xx for POST, 200 for GET *)
+Definition spec_accepted (t : tool) (a : answer) : bool :=
+  match t with
+  | ToNsq => match a with AOk => true | _ => false end
+  | HttpPost => match a with AStatus c => (200 <=? c) && (c <=? 299) | _ => false end
+  | HttpGet => match a with AStatus c => c =? 200 | _ => false end
+  end.
+
+Definition answered_no (t : tool) (a : answer) : bool :=
+  match a with
+  | AErr => true
+  | AStatus _ => negb (spec_accepted t a)
+  | _ => false
+  end.
+
+Definition entries_of (log : list (nat * bytes * answer)) (b : bytes) : list (nat * answer) :=
+  flat_map (fun e => match e with (d, b', a) => if bytes_eqb b b' then [(d, a)] else [] end) log.
+
+Definition mem_bytes (b : bytes) (l : list bytes) : bool := existsb (bytes_eqb b) l.
+
+Definition eff_mode (t : tool) (m : rmode) : rmode := effective_mode (mkRcfg t m 1 None false 0).
+
+(* property: a finished body was accepted (by every destination in mode all) *)
+Definition accepted_somewhere (t : tool) (m : rmode) (n : nat) (es : list (nat * answer)) : bool :=
+  match eff_mode t m with
+  | MAll => forallb (fun d => existsb (fun e => Nat.eqb (fst e) d && spec_accepted t (snd e)) es) (seq 0 n)
+  | _ => existsb (fun e => spec_accepted t (snd e)) es
+  end.
+
+(* model: replay one body's requests as deliveries of the handler, [fails] = failed
+   deliveries so far: Some fin = consistent.  After max_attempts failed deliveries the
+   client library gives the message up (finished without a further request).
+   [lenient] (nsq_to_nsq runs in which a destination closed a connection): an OK that was
+   written just before the close may be lost to the producer (its router may see the close
+   first and fail the transaction), so an accepted publish may be followed by a retry. *)
+Fixpoint walk (t : tool) (all lenient : bool) (n maxa : nat) (es : list (nat * answer)) (pos fails : nat) : option bool :=
+  match es with
+  | [] => Some (Nat.ltb 0 maxa && Nat.leb maxa fails)
+  | (d, a) :: r =>
+      if all && negb (Nat.eqb d pos) then None
+      else if Nat.ltb 0 maxa && Nat.leb maxa fails then None      (* a request after the give-up *)
+      else if accepted t a then
+        if negb all || Nat.eqb (S pos) n then
+          match r with
+          | [] => Some true
+          | _ => if lenient then walk t all lenient n maxa r 0 (S fails) else None
+          end
+        else walk t all lenient n maxa r (S pos) fails
+      else walk t all lenient n maxa r 0 (S fails)
+  end.
+
+Definition opt_bool_eqb (a : option bool) (b : bool) : bool :=
+  match a with Some x => Bool.eqb x b | None => false end.
+
+Definition judge_ack (c : ack_case) : N :=
+  let t := a_tool c in
+  let all := match eff_mode t (a_mode c) with MAll => true | _ => false end in
+  let lenient := match t with
+                 | ToNsq => existsb (fun e => match snd e with AClose => true | _ => false end) (a_log c)
+                 | _ => false end in
+  let per_body (sb : bytes * bool) : bool * bool :=
+    let b := fst sb in
+    let es := entries_of (a_log c) b in
+    let fin := mem_bytes b (a_finished c) in
+    let may_drop := a_sampling c || (a_filter c && negb (snd sb)) in
+    (* monitor *)
+    let mon := if fin && negb may_drop then accepted_somewhere t (a_mode c) (a_ndest c) es else true in
+    (* agreement with the handler model *)
+    let agr :=
+      if a_filter c && negb (snd sb) then (match es with [] => true | _ => false end) && (fin || negb (a_quiescent c))
+      else if mem_bytes b (a_givenup c) then
+        (* attempts exceeded max_attempts (failed deliveries need not all have reached a destination):
+           finished by the library, never accepted *)
+        Nat.ltb 0 (a_max_attempts c) && fin && negb (existsb (fun e => accepted t (snd e)) es)
+      else match walk t all lenient (a_ndest c) (a_max_attempts c) es 0 0 with
+           | Some f => if f then fin
+                       else if a_sampling c then true
+                       else negb fin
+           | None => false
+           end in
+    (agr, mon) in
+  let rs := map per_body (a_src c) in
+  let agree := forallb fst rs
+               && (if a_quiescent c then forallb (fun sb => mem_bytes (fst sb) (a_finished c)) (a_src c) else true) in
+  let nfail := N.of_nat (length (List.filter (fun e => answered_no t (snd e)) (a_log c))) in
+  let monitor := forallb snd rs
+                 && (nfail <=? a_requeues c + a_timeouts c)        (* "requeue otherwise" *)
+                 && forallb (fun e => match e with (_, b, _) => a_filter c || mem_bytes b (map fst (a_src c)) end) (a_log c) in
+  verdict agree monitor.
+
+Inductive case :=
+| ToNsqCase (c : to_nsq_case)
+| AckCase (c : ack_case).
+
+Definition judge (c : case) : N :=
+  match c with
+  | ToNsqCase x => judge_to_nsq x
+  | AckCase x => judge_ack x
+  end.
